@@ -441,7 +441,7 @@ Proof.
   destruct (mu_idle (mw xw) t) eqn:MI; try exact H0.
   assert (t < length (xthr xw))%nat as Ht by (apply xget_inb; rewrite Hx; discriminate).
   pose proof H0 as (_ & HA & _). pose proof Hx as Hx'. unfold xget in Hx.
-  destruct o as [o'|m| | |[m|]]; xn Hx; rewrite ?nth_lupd_same by exact Ht; cbn [x_pc x_ops x_rets];
+  destruct o as [o'|m| | |[m|]|m]; xn Hx; rewrite ?nth_lupd_same by exact Ht; cbn [x_pc x_ops x_rets];
     (apply SInv_same; [exact H0 | exact Ht | | apply FP_refl | reflexivity | | | ]).
   all: try (intros t' N; first [reflexivity | unfold push_op; now apply get_set_t_other]).
   all: unfold xk; rewrite ?Hx'; cbn [x_pc xkr]; rewrite ?xkr_push_op; try reflexivity; try apply HA; try exact I.
@@ -600,6 +600,8 @@ Proof.
     + rewrite nth_lupd_same by exact Ht. cbn [x_ops x_rets]. rewrite Em.
       apply (SInv_mu n Hn); [exact H1 | exact HI | exact Ht | rewrite Hx'; reflexivity | reflexivity | exact I].
     + rewrite Em. apply (SInv_mu0 n Hn); [exact H1 | exact HI | rewrite Hx'; reflexivity].
+  - (* XgStore *) assert (t < length (xthr xw))%nat as Ht by (apply HtN; discriminate). cbn [fst]. xn Hx.
+    ssame H1 Ht Hx' HA.
 Qed.
 End SpinInvariant.
 
